@@ -3,6 +3,7 @@ package c18
 import (
 	"fmt"
 	"math/rand/v2"
+	"os"
 	"time"
 )
 
@@ -467,6 +468,12 @@ func cloneTuple(t *tuple, name string) *tuple {
 			c.Headers[k] = v
 		}
 	}
+	if t.HeaderValues != nil {
+		c.HeaderValues = map[string][]string{}
+		for k, v := range t.HeaderValues {
+			c.HeaderValues[k] = append([]string(nil), v...)
+		}
+	}
 	if t.Init != nil {
 		c.Init = map[string]any{}
 		for k, v := range t.Init {
@@ -527,6 +534,92 @@ func genTuples(r *rand.Rand) tuplesParam {
 			}
 			v.Init["role"] = "admin"
 		}
+		p.Tuples = append(p.Tuples, v)
+		p.Differs = append(p.Differs, kind)
+	}
+	return p
+}
+
+// scenario 12: option tuples whose MULTI-VALUED headers differ in exactly one respect. The base
+// carries one or two X-Verif-* headers with 2-4 values each; every variant changes one thing about
+// one of them. "same headers" is what the upstream sees on the upgrade request: canonical name,
+// every value, in order (the oracle compares the connection's recorded headers with the
+// subscription's own); the name-case variant therefore is the same tuple as the base (sharing it
+// or not are both fine), all the others are different tuples.
+var multiHeaderKinds = []string{"first-value", "middle-value", "last-value", "value-order", "value-order-keeping-last", "fewer-values-drop-first", "fewer-values-drop-last",
+	"more-values-prepend", "more-values-append", "single-last-value", "name-case", "other-header-first-value"}
+
+func genHeaderTuples(r *rand.Rand) tuplesParam {
+	base := wsTuple("base", protoNames[r.IntN(3)], "/graphql")
+	nv := 2 + r.IntN(3)
+	vals := []string{"tenant-a", "team-1", "region-x", "read"}[4-nv:]
+	vals = append([]string(nil), vals...)
+	name := []string{"X-Verif-Scope", "x-verif-scope", "X-VERIF-SCOPE"}[r.IntN(3)]
+	base.HeaderValues = map[string][]string{name: vals}
+	other := ""
+	if r.IntN(2) == 0 {
+		other = "X-Verif-Group"
+		base.HeaderValues[other] = []string{"g1", "g2"}
+	}
+	if r.IntN(3) == 0 {
+		base.Headers = map[string]string{"X-Verif-Tenant": "t1"}
+	}
+	if r.IntN(3) == 0 {
+		base.Init = map[string]any{"token": "a"}
+	}
+	p := tuplesParam{Tuples: []*tuple{base, cloneTuple(base, "twin")}, Differs: []string{"-", "nothing"}, PerTuple: 1 + r.IntN(2), Concurrent: r.IntN(2) == 0, IdleMs: []int{0, 10, 40}[r.IntN(3)]}
+	n := 4 + r.IntN(4)
+	for _, vi := range r.Perm(len(multiHeaderKinds))[:n] {
+		kind := multiHeaderKinds[vi]
+		v := cloneTuple(base, "var-"+kind)
+		hv := v.HeaderValues[name]
+		switch kind {
+		case "first-value":
+			hv[0] = "tenant-b"
+		case "middle-value":
+			if len(hv) < 3 {
+				continue
+			}
+			hv[1] = "team-2"
+		case "last-value":
+			hv[len(hv)-1] = "write"
+		case "value-order":
+			hv[0], hv[len(hv)-1] = hv[len(hv)-1], hv[0]
+		case "value-order-keeping-last":
+			if len(hv) < 3 {
+				continue
+			}
+			hv[0], hv[1] = hv[1], hv[0]
+		case "fewer-values-drop-first":
+			hv = hv[1:]
+		case "fewer-values-drop-last":
+			hv = hv[:len(hv)-1]
+		case "more-values-prepend":
+			hv = append([]string{"admin"}, hv...)
+		case "more-values-append":
+			hv = append(hv, "audit")
+		case "single-last-value":
+			hv = hv[len(hv)-1:]
+		case "name-case":
+			delete(v.HeaderValues, name)
+			alt := "X-Verif-Scope"
+			if name == alt {
+				alt = "x-verif-scope"
+			}
+			v.HeaderValues[alt] = hv
+			p.Tuples = append(p.Tuples, v)
+			p.Differs = append(p.Differs, kind)
+			continue
+		case "other-header-first-value":
+			if other == "" {
+				continue
+			}
+			v.HeaderValues[other][0] = "g9"
+			p.Tuples = append(p.Tuples, v)
+			p.Differs = append(p.Differs, kind)
+			continue
+		}
+		v.HeaderValues[name] = hv
 		p.Tuples = append(p.Tuples, v)
 		p.Differs = append(p.Differs, kind)
 	}
@@ -774,6 +867,216 @@ rounds:
 	rep = e.judge()
 	e.finish(rep)
 	return rep, reused, held
+}
+
+// ---------------------------------------------------------------------------------------------
+// scenario 13: heartbeat on healthy connections. PingInterval > PingTimeout > 0 (the shape of the
+// datasource default 30 s / 10 s, scaled down); the upstream answers every ping (PongDelayMs after
+// it arrived: well after the client has finished sending the ping, well before the next tick).
+// The connections live for >= Ticks pings while every subscription keeps receiving data in
+// round trips (upstream sends one message per subscription, the scenario waits for the delivery).
+// Nothing may be closed and nothing may be lost.
+
+type healthyPingParam struct {
+	Tuples      []*tuple `json:"tuples"`
+	PerConn     []int    `json:"per_conn"`
+	IntervalMs  int      `json:"ping_interval_ms"`
+	TimeoutMs   int      `json:"ping_timeout_ms"`
+	PongDelayMs int      `json:"pong_delay_ms"`
+	Ticks       int      `json:"ticks"`
+}
+
+func genHealthyPing(r *rand.Rand) healthyPingParam {
+	p := healthyPingParam{IntervalMs: []int{90, 120, 150}[r.IntN(3)], PongDelayMs: []int{8, 12, 20}[r.IntN(3)], Ticks: 3 + r.IntN(2)}
+	p.TimeoutMs = p.IntervalMs / 3
+	n := 1 + r.IntN(2)
+	for i := 0; i < n; i++ {
+		proto := []string{"graphql-transport-ws", ""}[r.IntN(2)]
+		if i == 1 && r.IntN(3) == 0 {
+			proto = "graphql-ws" // no client pings on this protocol: must simply stay
+		}
+		t := wsTuple(fmt.Sprintf("ws-%s-%d", protoLabel(proto), i), proto, "/graphql")
+		t.Headers = map[string]string{"X-Verif-Tenant": fmt.Sprintf("t%d", i)}
+		p.Tuples = append(p.Tuples, t)
+		p.PerConn = append(p.PerConn, 1+r.IntN(3))
+	}
+	return p
+}
+
+const pingClosureFact = "every_ping_answered_and_conn_read_after_last_pong"
+
+func pingClosures(rep *runReport) int {
+	n := 0
+	for _, d := range rep.Devs {
+		if d.Facts[pingClosureFact] == "true" {
+			n++
+		}
+	}
+	return n
+}
+
+func dropPingClosures(rep *runReport, why string) {
+	kept := rep.Devs[:0]
+	for _, d := range rep.Devs {
+		if d.Facts[pingClosureFact] != "true" {
+			kept = append(kept, d)
+		}
+	}
+	rep.Devs = kept
+	if rep.Inconclusive == "" {
+		rep.Inconclusive = why
+	}
+}
+
+// instantPong (VERIF_C18_INSTANT_PONG=1, not part of any tier): the upstream answers pings at once
+// and a single closure convicts. Shows the window in the unchanged sendPing (the pong is handled
+// before lastPingSentAt is stored) in roughly one case out of four.
+var instantPong = os.Getenv("VERIF_C18_INSTANT_PONG") != ""
+
+// runHealthyPing returns the report, the pings answered on connections that stayed and the number
+// of completed data round trips.
+func runHealthyPing(p healthyPingParam, tag string) (rep *runReport, answered, rounds int) {
+	e := newEnv(tag, envCfg{idle: 10 * time.Millisecond, pingInterval: time.Duration(p.IntervalMs) * time.Millisecond, pingTimeout: time.Duration(p.TimeoutMs) * time.Millisecond})
+	e.up.mu.Lock()
+	e.up.pongDelay = time.Duration(p.PongDelayMs) * time.Millisecond
+	if instantPong {
+		e.up.pongDelay = 0
+	}
+	e.up.mu.Unlock()
+	var subs []*subscriber
+	for ti, t := range p.Tuples {
+		for j := 0; j < p.PerConn[ti]; j++ {
+			subs = append(subs, e.newSub(fmt.Sprintf("k%d.%d", ti, j), t, manual()))
+		}
+	}
+	// evidence per upstream connection: pongs written so far, and the number of consecutive round
+	// trips completed since the last pong was written. A message of such a round trip was written
+	// after that pong on the same connection; the client's single read loop handled the pong first.
+	lastPongs, sincePong := map[int]int{}, map[int]int{}
+	connOf := map[string]*srvConn{}
+	if e.establish(subs) {
+		for _, s := range subs {
+			if _, _, c := e.up.sentFor(s.key); c != nil {
+				connOf[s.key] = c
+			}
+		}
+		pinged := func() (min int, any bool) {
+			min = -1
+			for _, ci := range e.up.snapshot() {
+				if ci.Kind != "ws" || ci.Negotiated != "graphql-transport-ws" {
+					continue
+				}
+				any = true
+				if min < 0 || ci.Pongs < min {
+					min = ci.Pongs
+				}
+			}
+			return min, any
+		}
+		broken := func() bool {
+			for _, s := range subs {
+				if s.hasNonData() {
+					return true
+				}
+			}
+			return e.up.openCount() < len(p.Tuples)
+		}
+		deadline := time.Now().Add(stepWatchdog) // watchdog only
+		for {
+			if n, any := pinged(); (any && n >= p.Ticks) || (!any && rounds >= 20) {
+				break
+			}
+			if broken() {
+				break
+			}
+			if time.Now().After(deadline) {
+				e.fail("watchdog", fmt.Sprintf("%d answered pings on every connection", p.Ticks))
+				break
+			}
+			before := map[int]int{}
+			for _, ci := range e.up.snapshot() {
+				before[ci.ID] = ci.Pongs
+			}
+			sentAll := true
+			for _, s := range subs {
+				if !e.srvSend(s, "next") {
+					sentAll = false
+				}
+			}
+			if !sentAll || !e.waitQuiet(subs, "round trip") || broken() {
+				break
+			}
+			rounds++
+			for _, ci := range e.up.snapshot() {
+				if ci.Pongs == before[ci.ID] && ci.Pongs == lastPongs[ci.ID] {
+					sincePong[ci.ID]++
+				} else {
+					sincePong[ci.ID] = 0
+				}
+				lastPongs[ci.ID] = ci.Pongs
+			}
+			time.Sleep(2 * time.Millisecond)
+		}
+	}
+	// something broke: let the client tell every subscriber of the affected connections and the
+	// upstream register the closures, so that the facts below are the final ones
+	hit := map[*srvConn]bool{}
+	for _, s := range subs {
+		s.mu.Lock()
+		bad := s.sendFailed > 0
+		s.mu.Unlock()
+		if c := connOf[s.key]; c != nil && (bad || s.hasNonData()) {
+			hit[c] = true
+		}
+	}
+	if len(hit) > 0 {
+		e.note.until(3*time.Second, func() bool {
+			for _, s := range subs {
+				if c := connOf[s.key]; c != nil && hit[c] && (!s.hasNonData() || e.up.connInfoOf(c).State != "closed") {
+					return false
+				}
+			}
+			return true
+		})
+	}
+	rep = e.judge()
+	// A healthy connection closed by the client's ping timeout: convicted when the upstream answered
+	// every ping it received on that connection and >= 3 round trips were completed after the last
+	// pong had been written (the client was reading that connection all along). Otherwise this
+	// process stalled around a tick: timing, inconclusive.
+	kept := rep.Devs[:0]
+	for _, d := range rep.Devs {
+		if d.Isolation && d.Facts["conn_closed_by"] == "client-close-1000" && d.SubIdx >= 0 && d.SubIdx < len(subs) {
+			c := connOf[subs[d.SubIdx].key]
+			strong := false
+			if c != nil {
+				ci := e.up.connInfoOf(c)
+				strong = ci.Pings > 0 && ci.Pongs >= ci.Pings && sincePong[c.ID] >= 3
+				d.Facts["pings_seen_on_conn"] = fmt.Sprint(ci.Pings)
+				d.Msg += fmt.Sprintf(" [connection %d: %d pings received, %d pongs written (pong delay %d ms), %d data round trips completed after the last pong; ping interval %d ms, timeout %d ms]",
+					c.ID, ci.Pings, ci.Pongs, p.PongDelayMs, sincePong[c.ID], p.IntervalMs, p.TimeoutMs)
+			}
+			d.Facts[pingClosureFact] = fmt.Sprint(strong)
+			if instantPong {
+				d.Facts["upstream_pong"] = "instant"
+			}
+			if !strong {
+				if rep.Inconclusive == "" {
+					rep.Inconclusive = "timing: a connection was closed by the client's ping timeout and the upstream's records do not show that its last pong was handled in time"
+				}
+				continue
+			}
+		}
+		kept = append(kept, d)
+	}
+	rep.Devs = kept
+	for _, ci := range e.up.snapshot() {
+		if ci.State == "open" {
+			answered += ci.Pongs
+		}
+	}
+	e.finish(rep)
+	return rep, answered, rounds
 }
 
 // ---------------------------------------------------------------------------------------------
